@@ -4,7 +4,7 @@
     function over the parsed opcode lists (no fuel, no general recursion), so every run returns. *)
 From Coq Require Import List NArith ZArith.
 From Coq Require Import Strings.Byte.
-From GoBT Require Import lib.Bytes model.ScriptNum model.Interp proofs.InterpTotal.
+From GoBT Require Import lib.Bytes model.ScriptNum model.Interp model.ExecOpts proofs.InterpTotal proofs.ExecOptsTotal.
 Import ListNotations.
 
 (** for every pair of scripts, every 32-bit flag word, with or without a transaction and previous output,
@@ -18,6 +18,20 @@ Print Assumptions C07_engine_total.
 Theorem C07_engine_total_with_signatures : forall so i, sigops_ok so -> fst (engine_execute so i) <> VPanic.
 Proof. intros so i H. apply engine_execute_no_panic. exact H. Qed.
 Print Assumptions C07_engine_total_with_signatures.
+
+(** Engine.Execute on whatever the caller passes: nil / empty / mismatching scripts, a nil transaction or one
+    with any number of inputs, a nil previous output or one without a locking script, and any Go [int] as
+    input index (negative, beyond the inputs, MaxInt64).  [validate] and the head of thread.apply (model/ExecOpts.v)
+    have an explicit panic outcome for every slice index and nil dereference of the Go code; none is reachable. *)
+Theorem C07_execute_total_any_arguments : forall so o, sigops_ok so -> fst (engine_execute_opts so o) <> VPanic.
+Proof. exact engine_execute_opts_no_panic. Qed.
+Print Assumptions C07_execute_total_any_arguments.
+
+(** validation is what makes it so: an index the later code would dereference out of range is rejected *)
+Theorem C07_validate_rejects_bad_index : forall o t,
+  eo_tx o = Some t -> index (ot_ins t) (eo_idx o) = IPanic -> validate o = VRerr.
+Proof. exact validate_rejects_bad_index. Qed.
+Print Assumptions C07_validate_rejects_bad_index.
 
 (** the verdict is one of exactly two values *)
 Theorem C07_verdict_ok_or_err : forall i,
@@ -60,4 +74,18 @@ Example C07_runs :
   fst (engine_execute no_sigops (mkExecInput [x51] [x51; x87] 0 false false 0 0 0)) = VOk /\
   fst (engine_execute no_sigops (mkExecInput [] [x51; x6a; x63] 16384 false false 0 0 0)) = VOk /\
   fst (engine_execute no_sigops (mkExecInput [] [x00; x51; x98] 16384 false false 0 0 0)) = VErr.
+Proof. vm_compute. repeat split; reflexivity. Qed.
+
+Example C07_argument_runs :
+  let tx i := Some (mkOTx [mkOIn (Some [x51]) 0; mkOIn None 0] 0 1) in
+  (* scripts taken from the transaction and the previous output *)
+  fst (engine_execute_opts no_sigops (mkOpts None None (Some (Some [x51])) (tx 0) 0 0)) = VOk /\
+  (* index beyond the inputs, negative, and 2^63-1 *)
+  fst (engine_execute_opts no_sigops (mkOpts None None (Some (Some [x51])) (tx 0) 2 0)) = VErr /\
+  fst (engine_execute_opts no_sigops (mkOpts (Some [x51]) (Some [x51]) None None (-1) 0)) = VErr /\
+  fst (engine_execute_opts no_sigops (mkOpts None None (Some (Some [x51])) (tx 0) 9223372036854775807 0)) = VErr /\
+  (* input without an unlocking script and none passed *)
+  fst (engine_execute_opts no_sigops (mkOpts None None (Some (Some [x51])) (tx 0) 1 0)) = VErr /\
+  (* no transaction: any non-negative index passes validation *)
+  fst (engine_execute_opts no_sigops (mkOpts (Some [x51]) (Some []) None None 9223372036854775807 0)) = VOk.
 Proof. vm_compute. repeat split; reflexivity. Qed.
